@@ -289,7 +289,11 @@ class Executor:
     def resolve_path(self, path: str, args: dict, heap=None):
         heap = heap if heap is not None else self.st.heap
         parts = path.split(".")
-        v = args[parts[0]]
+        if "#" in parts[0] and parts[0].rsplit("#", 1)[1].isdigit():  # "param#1": item 1 of a tuple-valued parameter (a container the callee mutates in place)
+            base, idx = parts[0].rsplit("#", 1)
+            v = args[base][int(idx)]
+        else:
+            v = args[parts[0]]
         for p in parts[1:]:
             o = heap[v.id]
             v = o.fields[p]
@@ -306,6 +310,13 @@ class Executor:
                 continue
             if isinstance(v, Ref):
                 ids |= self.owned(v, heap)
+                if getattr(self.contract, "alias_modifies_slot_owner", False):
+                    # opt-in (contracts listing a local ALIAS of a slot of a container in `modifies`): a change of the alias is written back to the
+                    # containers holding the slot, which therefore change too; such a contract states the frame of the holder itself (other slots kept)
+                    o = heap.get(v.id)
+                    while o is not None and getattr(o, "origin", None) is not None and isinstance(o.origin[0], Ref):
+                        ids.add(o.origin[0].id)
+                        o = heap.get(o.origin[0].id)
         return ids
 
     def check_symheap_frame(self, old_heap, modifies, kind, lineno):
